@@ -43,7 +43,7 @@ PROPS["C15"] = dict(
                "The script machine built from these definitions is run against the real layer every run; the clauses are re-checked model-free on the implementation.",
     level_note="Model (coq/Model/Prefetch.v) is hand-written. 'Never blocks forever' is proved as: the timeout step of a parked wait is enabled in every reachable state "
                "(timer firing = Go runtime). The registry-request prediction covers blob.Cache's requests exactly (for lossless compressed-blob caches) and constrains the "
-               "decompression phase only for landmark layers (nothing may follow). Both metadata stores are driven (the db store through harness/cmdmod/cmd/prefetchdb); min-chunk-size layers only with the memory store (the db store cannot read them: defect reported to C05).",
+               "decompression phase only for landmark layers (nothing may follow). Both metadata stores are driven (the db store through harness/cmdmod/cmd/prefetchdb); min-chunk-size layers with both stores (the harness found that the db store could not read them; repaired by patches/C05-fix-8.diff, as the empty-file case of the memory store by patches/C02-fix-1.diff).",
     technique="Coq proof: invariants preserved by every step (cache: lru subset of pending+disk, committed keys never leave pending+disk; waiter: 8-clause invariant), lifted to all "
               "histories by induction over fold_left; correspondence by vm_compute of the script machine on observed cases + model-free oracle",
     trusted=["fs/layer/layer.go (Prefetch, prefetch, WaitForPrefetchCompletion, BackgroundFetch, waiter), fs/remote/blob.go (Cache, cacheAt, walkChunks), fs/reader/reader.go "
